@@ -4,6 +4,7 @@ package p2prig
 
 import (
 	"encoding/binary"
+	"errors"
 	"fmt"
 	"net"
 	"sync"
@@ -97,6 +98,7 @@ type Node struct {
 	LoseFirstN        int  // DisconnectAtMsg / CloseAfterVersion apply to the first n connections instead of the first only (0 = 1)
 	RestartOnDrop     bool // the scripted loss of a connection (DisconnectAtMsg, DropAfterHeight) takes all of the node's open connections with it: the node restarts
 	refusedDials      int  // dials the rig refused on the node's behalf (MaxLive, MaxAccepts)
+	HangUpAfterMarked bool // the node closes the connection right after writing the answer that contains MarkHash (hit and run)
 	UnknownFirst      bool // right after the handshake the node sends a message with a command the service does not know (real nodes do)
 	PushOnHandshake   bool // the unsolicited pushes (PushAfterReply, PushSeq) go out as soon as the handshake is complete instead of after the first getheaders answer
 	VersionTwice      bool // on the first connection(s) the node answers the service's version with its own version message twice (and no verack)
@@ -596,7 +598,17 @@ func (c *Conn) answerGetHeaders(m *wire.MsgGetHeaders) error {
 	if end > atomic.LoadInt32(&c.peerKnown) && len(reply.Headers) > 0 {
 		atomic.StoreInt32(&c.peerKnown, end)
 	}
-	return c.write(reply, fmt.Sprintf("%d headers %d..%d%s", len(reply.Headers), start+1, end, marked))
+	err := c.write(reply, fmt.Sprintf("%d headers %d..%d%s", len(reply.Headers), start+1, end, marked))
+	if err == nil && marked != "" {
+		n.mu.Lock()
+		hang := n.HangUpAfterMarked
+		n.mu.Unlock()
+		if hang {
+			c.Close("scripted: the node hangs up right after the answer that carries the marked header")
+			return errors.New("hung up")
+		}
+	}
+	return err
 }
 
 // pushNow sends the node's unsolicited headers messages on this connection (once per connection).
